@@ -1,7 +1,7 @@
 import GT.Base.JsonQ
 import GT.Base.QSqrt
 import GT.Model.Targets
-open Lean GT.J GT
+open Lean GT.J GT GT.Targets
 namespace GT.Driver.C13
 
 def needSq (q : ℚ) : R Unit := if isSq q then pure () else throw "irrational-root"
